@@ -438,6 +438,16 @@ class Calls(Interp):
                 self.st.heap = cur
         if isinstance(fn, ast.Name) and fn.id in ("forall", "exists") and self.spec_mode:
             return self.quant_lambda(fn.id, node)
+        if isinstance(fn, ast.Name) and fn.id in ("implies", "ite") and self.spec_mode and not node.keywords \
+                and len(node.args) == (2 if fn.id == "implies" else 3) and not any(isinstance(a, ast.Starred) for a in node.args):
+            # the guarded operands are evaluated UNDER their guard: typing assumptions made by heap reads in them are conditional
+            g = self.truthy(self.ev(node.args[0]), node)
+            if fn.id == "implies":
+                b = self.truthy(self.under_guard(g, node.args[1]), node)
+                return BoolSV(z3.Implies(g, b))
+            a1 = self.under_guard(g, node.args[1])
+            a2 = self.under_guard(z3.Not(g), node.args[2])
+            return self.ite(g, a1, a2, node)
         if isinstance(fn, ast.Name) and fn.id == "super" and not node.args:
             fr = self.frame
             return SuperV(fr.func.cls, fr.locals.get("self") or fr.locals.get("cls"))
@@ -1950,10 +1960,13 @@ class Calls(Interp):
                 env[nm] = SV(c, None)
             qv.append(c)
         self.spec_envs.append(env)
+        bound = self.__dict__.setdefault("spec_bound", [])
+        bound.append({c.decl().name() for c in qv})
         try:
             body = self.truthy(self.ev(lam.body), node)
         finally:
             self.spec_envs.pop()
+            bound.pop()
         return BoolSV(z3.ForAll(qv, body) if which == "forall" else z3.Exists(qv, body))
 
     def spec_call(self, name, args, kwargs, node):
